@@ -178,7 +178,23 @@ func (g *fnGen) eval(e SExpr, env *evalEnv) (string, types.Type, error) {
 		if x.Forall {
 			qn = "forall"
 		}
-		return "(" + qn + " (" + strings.Join(decls, " ") + ") " + body + ")", tBool_, nil
+		quant := "(" + qn + " (" + strings.Join(decls, " ") + ") " + body + ")"
+		if !x.Forall && len(x.Vars) == 1 {
+			// exists x :: P(x) is equivalent to P(c) || exists x :: P(x); offering the running range
+			// index as a witness spares the solver an instantiation it rarely finds by itself
+			if cv, ct, err := g.evalIdent("rangeindex", env); err == nil && ct != nil {
+				we := *env
+				we.bound = map[string]binding{}
+				for k, v := range env.bound {
+					we.bound[k] = v
+				}
+				we.bound[x.Vars[0].Name] = binding{cv, ne.bound[x.Vars[0].Name].typ}
+				if wb, err := g.evalBool(x.Body, &we); err == nil {
+					quant = S("or", wb, quant)
+				}
+			}
+		}
+		return quant, tBool_, nil
 	case *SSel:
 		return g.evalSel(x, env)
 	case *SIndex:
